@@ -5,6 +5,7 @@
 From Coq Require Import List QArith Reals Qreals Lra Bool Arith.
 From PV Require Import Model.Dict Model.Terms Model.Sent Model.Matrices Model.Collect Gen.SolvePlan
      Spec.GramSem Proofs.DictLemmas Proofs.C05Spec Proofs.C05Lemmas Proofs.C05Collect.
+From PV Require Model.Mosek Proofs.C11Run Proofs.C11Sem.
 Import ListNotations.
 Local Open Scope R_scope.
 
@@ -144,6 +145,23 @@ Example C05_example_collect :
   end.
 Proof. vm_compute. reflexivity. Qed.
 
+(** The MOSEK back-end ("in either back-end"): the sequence of Task calls the model of mosek_wrapper.py issues for ANY
+    declared model denotes, under the API semantics of Model/Mosek.v, exactly the declared SDP -- every scalar row in its
+    own row (LMI entry rows counted), every LMI coupled entry by entry to the matrix variable appended for it -- and
+    its rows hold iff every declared constraint holds in the Gram reading.  (These are C11's theorems; they are
+    restated here because C05's stream `mosek-call-log` ties the same model to the real wrapper.) *)
+Theorem C05_mosek_task_is_declared_sdp :
+  forall (l : Model.Sent.sent) (pc ec obj : nat),
+    Model.Mosek.guard l pc ec obj = true ->
+    Model.Mosek.task_denote (Model.Mosek.emit l pc ec obj) = Some (Model.Mosek.sdp_of l pc ec obj).
+Proof. exact Proofs.C11Run.same_sdp. Qed.
+
+Theorem C05_mosek_rows_meaning :
+  forall (x : nat -> R) (X : nat -> nat -> nat -> R), (forall j, Spec.GramSem.symG (X j)) ->
+  forall (l : Model.Sent.sent) (kb : nat), Proofs.C11Sem.wfR l ->
+    (Forall (Proofs.C11Sem.row_holds x X) (Model.Mosek.rows_of kb l) <-> Proofs.C11Sem.sat_items x X kb l).
+Proof. exact Proofs.C11Sem.rows_meaning. Qed.
+
 Print Assumptions C05_dense.
 Print Assumptions C05_sparse.
 Print Assumptions C05_sparse_lower.
@@ -152,3 +170,5 @@ Print Assumptions C05_collect.
 Print Assumptions C05_multiplicity.
 Print Assumptions C05_metric_row.
 Print Assumptions C05_max_min.
+Print Assumptions C05_mosek_task_is_declared_sdp.
+Print Assumptions C05_mosek_rows_meaning.
